@@ -217,6 +217,19 @@ ReplacePlan(from, to) ==
 Stamp(recs, n) == [i \in 1..Len(recs) |->
                     [off |-> n + i - 1, ep |-> recs[i].ep, val |-> recs[i].val, key |-> recs[i].key]]
 
+\* The leader path (Append) stamps consecutive offsets.  A replicated message set
+\* (AppendMessageSet) carries the offsets the leader gave: they have GAPS where the
+\* leader's log was compacted.  op.skip[i] = number of offsets left out in front of
+\* record i (absent = none): segments become sparse without any local compaction.
+SkipOf(op) == IF "skip" \in DOMAIN op THEN op.skip ELSE [i \in 1..Len(op.recs) |-> 0]
+RECURSIVE StampFrom(_, _, _)
+StampFrom(recs, skip, n) ==
+  IF recs = <<>> THEN <<>>
+  ELSE LET r == Head(recs)
+           o == n + Head(skip) IN
+       <<[off |-> o, ep |-> r.ep, val |-> r.val, key |-> r.key]>> \o StampFrom(Tail(recs), Tail(skip), o + 1)
+StampOp(op, n) == StampFrom(op.recs, SkipOf(op), n)
+
 \* commitLog.append: every message whose epoch exceeds the last one seen starts
 \* that epoch at its offset - one checkpoint flush per new epoch
 RECURSIVE EpochPlan(_, _, _)
@@ -233,7 +246,7 @@ EpochPlan(c, recs, lastE) ==
 \* Append(msgs) / AppendMessageSet(bytes) (replicated path: the batch may span
 \* several leader epochs): roll if the active segment is full, write the whole
 \* batch to the log, write its index entries, assign the new epochs
-PlanAppend(f, m, recs) ==
+PlanAppend(f, m, op) ==
   LET segs == m.segs
       act == Last(segs)
       ak == Key(act.base, "")
@@ -245,7 +258,7 @@ PlanAppend(f, m, recs) ==
       act2 == Last(segs2)
       k2 == Key(act2.base, "")
       n == SegNext(act2)
-      st == Stamp(recs, n)
+      st == StampOp(op, n)
       p0 == IF full THEN 0 ELSE Len(Get(f.lf, ak))
       act3 == [act2 EXCEPT !.first = IF @ = -1 THEN st[1].off ELSE @, !.last = Last(st).off]
       segs3 == [segs2 EXCEPT ![Len(segs2)] = act3]
@@ -421,8 +434,8 @@ RecoverPlan(f) ==
 PlanReopen(f) == <<CP("hw.before_checkpoint"), [i |-> "whw"], [i |-> "down"]>> \o RecoverPlan(f)
 
 Plan(f, m, op) ==
-  CASE op.a = "Append" -> PlanAppend(f, m, op.recs)
-    [] op.a = "AppendSet" -> PlanAppend(f, m, op.recs)
+  CASE op.a = "Append" -> PlanAppend(f, m, op)
+    [] op.a = "AppendSet" -> PlanAppend(f, m, op)
     [] op.a = "SetHW" -> PlanSetHW(m, op.h)
     [] op.a = "Checkpoint" -> PlanCheckpoint
     [] op.a = "NewLeaderEpoch" -> PlanNewLeaderEpoch(m, op.e)
@@ -671,7 +684,7 @@ Removable(op, pre, lastBase, hw) ==
     [] op.a = "Clean" -> {r \in RangeOf(pre) : r.off < lastBase /\ Justified(r, pre, hw)}
     [] OTHER -> {}
 Addable(op, nw) ==
-  IF op.a \in {"Append", "AppendSet"} THEN RangeOf(Stamp(op.recs, nw + 1)) ELSE {}
+  IF op.a \in {"Append", "AppendSet"} THEN RangeOf(StampOp(op, nw + 1)) ELSE {}
 
 \* the records whose offsets must not be claimed-but-unreadable after the step:
 \* all records present before and the ones being written; a clean may remove
@@ -696,8 +709,8 @@ IsSubSeq(a, b) == \* a is b with some elements removed
 P_Op(op, pre, nw, lastBase, hwPre, o2, sc, hwPost) ==
   CASE op.a \in {"Append", "AppendSet"} ->
          /\ o2.err = ""
-         /\ o2.ret = [i \in 1..Len(op.recs) |-> nw + i]
-         /\ sc = pre \o Stamp(op.recs, nw + 1)
+         /\ o2.ret = Offs(StampOp(op, nw + 1))
+         /\ sc = pre \o StampOp(op, nw + 1)
     [] op.a = "Truncate" -> o2.err = "" /\ sc = SelectSeq(pre, LAMBDA r : r.off < op.o)
     [] op.a = "Clean" ->
          /\ o2.err = ""
